@@ -51,7 +51,9 @@ def impl_parse(cfg, name):
 
 
 def model_parse(model, cfg, names):
-    rep = model.call("sp.parse", cfg["elements"], cfg["pseudo"], [[k, v] for k, v in cfg["repl"].items()], cfg["grain"], cfg["surface"], names)
+    rep = []
+    for k in range(0, len(names), 800):        # bounded request size (the runner's reader is not tail-recursive)
+        rep += model.call("sp.parse", cfg["elements"], cfg["pseudo"], [[k2, v] for k2, v in cfg["repl"].items()], cfg["grain"], cfg["surface"], names[k:k + 800])
     out = []
     for r in rep:
         if r[0] == "err":
@@ -180,10 +182,11 @@ def flush(res, model, cfg_name, cfg, batch):
     spec = {}
     if model is not None:
         idx = [k for k, b in enumerate(batch) if b[2] is not None and not b[2].get("skip") and "_items" in b[2]]
-        if idx:
+        for c0 in range(0, len(idx), 500):
+            chunk = idx[c0:c0 + 500]
             rep = model.call("sp.items", cfg["elements"], cfg["pseudo"], [[k, v] for k, v in cfg["repl"].items()], cfg["grain"], cfg["surface"],
-                             [[batch[k][1], batch[k][2]["_items"]] for k in idx])
-            for k, r in zip(idx, rep):
+                             [[batch[k][1], batch[k][2]["_items"]] for k in chunk])
+            for k, r in zip(chunk, rep):
                 spec[k] = r
     for bk, ((cn, name, comp, spans), (i, sobj), m) in enumerate(zip(batch, impl, mods)):
         case = {"kind": "c08", "config": cfg_name, "name": name}
